@@ -253,6 +253,11 @@ def merge_family(ctx, exe_r):
             gs.append(g)
     seen, uniq = set(), []
     for g in gs:
+        # a rule deriving just itself makes any Yacc-style parser loop (C07's domain: "no rule can derive just itself"):
+        # such grammars have no parse results to compare
+        if g is not None and g.derives_cycle():
+            ctx.count("merge_family_skipped_cyclic")
+            continue
         if g is not None and g.key() not in seen:
             seen.add(g.key())
             uniq.append(g)
@@ -278,6 +283,11 @@ def merge_family(ctx, exe_r):
         if len(set(ths.values())) > 1:
             ctx.count("merge_family_tables_not_isomorphic")
         accepting = [w for w in WIDTHS if obs[w][0] == "OK"]
+        if ref[0] != "OK" and len(set(tuple(map(str, obs[w][:1])) for w in WIDTHS)) == 1 and not accepting:
+            # no width produced a result (the same outcome class everywhere, e.g. a parse that does not return on a
+            # conflict-resolved table: C07's known class): nothing depends on the width here
+            ctx.count("merge_family_no_result_in_any_width_%s" % str(ref[0])[:12])
+            continue
         if ref[0] != "OK" or any(obs[w] != ref for w in accepting) or len(accepting) != 3:
             nbad += 1
             diff = []
